@@ -25,11 +25,11 @@ def run(ctx, replay=None):
         if not os.path.exists(cases):
             raise Infra("case emission failed:\n" + r["out"][-2000:])
         if ctx.quick:
-            # the full product is 768 cases; quick takes every shape x option set with one intermediate kind each
+            # the full product is 960 cases; quick takes every shape x option set with one intermediate kind each
             allc = json.load(open(cases))
-            kinds = ["memory", "oci", "file", "remote"]
+            kinds = ["memory", "oci", "file", "remote", "remotemin"]
             combos = sorted({json.dumps({"shape": c["shape"], "opts": c["opts"]}, sort_keys=True) for c in allc})
-            want = {k: kinds[(j + ctx.seed) % 4] for j, k in enumerate(combos)}
+            want = {k: kinds[(j + ctx.seed) % 5] for j, k in enumerate(combos)}
             pick = [c for c in allc if c["inter"] == want[json.dumps({"shape": c["shape"], "opts": c["opts"]}, sort_keys=True)]]
             json.dump(pick, open(cases, "w"))
     out = ctx.sub("drv")
